@@ -241,8 +241,10 @@ theorem Mono.readBlockLen (ignored : Bool) : ∀ fuel, Mono (readBlockLen ignore
         · exact Mono.fail _
         · refine Mono.bind (Mono.skipBytes _) fun _ => ?_
           exact Mono.readBlockLen ignored fuel
-      · refine Mono.bind (Mono.readVarint _) fun _ => ?_
-        exact Mono.pure _
+      · refine Mono.bind (Mono.readVarint _) fun sz => ?_
+        split
+        · exact Mono.fail _
+        · exact Mono.pure _
     · exact Mono.pure _
 
 theorem Mono.hasMore (cfg : DeConfig) (ignored : Bool) (bs : BlockState) :
@@ -379,10 +381,12 @@ theorem readBlockLen_pos (ignored : Bool) : ∀ (fuel : Nat) (s s' : RState) (l 
           · simp
         · simp only [DeM.bind_apply]
           split
-          · simp only [DeM.pure_apply]
-            split
-            · simp
-            · intro h; simp only [Prod.mk.injEq, Except.ok.injEq, Option.some.injEq] at h; omega
+          · split
+            · simp [DeM.fail_apply]
+            · simp only [DeM.pure_apply]
+              split
+              · simp
+              · intro h; simp only [Prod.mk.injEq, Except.ok.injEq, Option.some.injEq] at h; omega
           · simp
       · simp only [DeM.pure_apply]
         split
